@@ -168,7 +168,7 @@ def tracer_cases(tier, seed):
                 nk, nq = kq_l[n % len(kq_l)]
                 s = seeds[(n // len(kq_l)) % len(seeds)]
                 pert = [n % chains] if (init == "multi" and chains > 1) else []
-                cases.append(dict(kind="tracer", seed=s, chains=chains, nk=nk, nq=nq, schedule=sch, chunk=chunk, jitter=jitter, init=init, repeat=(n % (8 if tier == "quick" else 4) == 0), perturb=pert))
+                cases.append(dict(kind="tracer", seed=s, chains=chains, nk=nk, nq=nq, schedule=sch, chunk=chunk, jitter=jitter, init=init, repeat=(n % (8 if tier == "quick" else 4) == 0), perturb=pert, eseed=(100 + n % 7 if n % 3 == 1 else None)))
                 n += 1
             pair += 1
     refs = [[["FAST", 2, 1], ["POSTERIOR", 4, 2]], [["SLOW", 2, 1], ["BURNIN", 2, 1], ["POSTERIOR", 2, 1]]]
@@ -180,7 +180,7 @@ def tracer_cases(tier, seed):
                 s = seeds[n % len(seeds)]
                 n += 1
                 pert = list(range(chains)) if (init == "multi" and chains > 1) else []
-                cases.append(dict(kind="tracer", seed=s, chains=chains, nk=nk, nq=nq, schedule=sch, chunk=chunk, jitter=jitter, init=init, repeat=True, perturb=pert))
+                cases.append(dict(kind="tracer", seed=s, chains=chains, nk=nk, nq=nq, schedule=sch, chunk=chunk, jitter=jitter, init=init, repeat=True, perturb=pert, eseed=(200 + n % 5 if n % 2 == 0 else None), multikey=(n % 4 == 0 and chains > 1)))
     return cases
 
 
@@ -206,7 +206,7 @@ def real_cases(tier, seed):
             s = seeds[n % len(seeds)]
             n += 1
             pert = list(range(chains)) if init == "multi" else []
-            cases.append(dict(kind="real", kset=name, seed=s, chains=chains, schedule=sch, chunk=_gcd(sch), jitter=jitter, init=init, repeat=True, perturb=pert))
+            cases.append(dict(kind="real", kset=name, seed=s, chains=chains, schedule=sch, chunk=_gcd(sch), jitter=jitter, init=init, repeat=True, perturb=pert, eseed=(300 + n if n % 2 == 0 else None)))
     return cases
 
 
@@ -372,8 +372,12 @@ def lib():
 # jitter functions (harness side; the reference versions live in mc/ref/c10_ref.py)
 
 
-def _jitter_fns(kind, names, float_names=()):
+def _jitter_fns(case):
     """
+    One jitter function per position key, chosen by mc.ref.c10_ref.jitter_kind: different
+    keys get genuinely different functions (the tracked-only key "w" gets +3; in the "det"
+    configurations odd kernel keys get "sum").
+
     Jitter functions of the lattice. All of them are written with ``...`` indexing so
     that they also *work* when the builder (wrongly) hands them the stacked
     [chains, ...] value or one key for all chains - the wrong RESULT is then observed by
@@ -385,8 +389,9 @@ def _jitter_fns(kind, names, float_names=()):
     L = lib()
     jnp = L["jnp"]
     jax = L["jax"]
-    if kind == "none":
+    if case["jitter"] == "none":
         return None
+    tracer = case["kind"] == "tracer"
 
     def det_u(key, val):
         return val.at[..., 0].set(val[..., 0] * jnp.uint32(2) + jnp.uint32(7))
@@ -408,12 +413,14 @@ def _jitter_fns(kind, names, float_names=()):
     def key_f(key, val):
         return val + jax.random.uniform(key, jnp.shape(val), jnp.float32, -1.0, 1.0)
 
-    fns = {}
-    for n in names:
-        fns[n] = {"det": det_u, "sum": sum_u, "key": key_u}[kind]
-    for n in float_names:
-        fns[n] = {"det": det_f, "sum": sum_f, "key": key_f}[kind]
-    return fns
+    def w3_u(key, val):
+        return val + jnp.uint32(3)
+
+    def w3_f(key, val):
+        return val + jnp.float32(3.0)
+
+    table = {"det": det_u, "sum": sum_u, "key": key_u, "w3": w3_u} if tracer else {"det": det_f, "sum": sum_f, "key": key_f, "w3": w3_f}
+    return {n: table[ref.jitter_kind(case, n)] for n in ref.jittered_names(case)}
 
 
 # ---------------------------------------------------------------------------------
@@ -498,7 +505,9 @@ def _run_engine(case, seed_form, perturb, stage):
     chains = case["chains"]
     schedule = case["schedule"]
     seed = case["seed"]
-    seed_arg = seed if seed_form == "int" else jax.random.PRNGKey(seed)
+    eseed = case.get("eseed")
+    # with an engine seed the int/key distinction is exercised on set_engine_seed
+    seed_arg = seed if (seed_form == "int" or eseed is not None) else jax.random.PRNGKey(seed)
 
     tracer = case["kind"] == "tracer"
     init_np = ref.initial_values(case, perturb)  # dict name -> np array [chains, ...]
@@ -509,17 +518,25 @@ def _run_engine(case, seed_form, perturb, stage):
         model = gs.DictInterface(lambda s: jnp.float32(0.0))
         kernels = [L["KeyRecKernel"]([n], cap) for n in knames]
         gens = [L["KeyGen"](f"g{i}") for i in range(nq)]
-        jfn = _jitter_fns(case["jitter"], knames)
+        jfn = _jitter_fns(case)
         included = ["w"]
     else:
         kdef = dict(REAL_SETS)[case["kset"]]
         model = gs.DictInterface(lambda s: -0.5 * jnp.sum((s["a"] - 1.0) ** 2) - 0.25 * jnp.sum(s["b"] ** 2) - 0.1 * s["a"] * s["b"][0])
         kernels = [getattr(gs, cls)(keys) for cls, keys in kdef]
         gens = []
-        jfn = _jitter_fns(case["jitter"], [], ["a", "b"])
+        jfn = _jitter_fns(case)
         included = ["w"]
 
     builder = gs.EngineBuilder(seed=seed_arg, num_chains=chains)
+    if eseed is not None:
+        stage[0] = "set_engine_seed"
+        if seed_form == "int":
+            builder.set_engine_seed(eseed)
+        elif seed_form == "key":
+            builder.set_engine_seed(jax.random.PRNGKey(eseed))
+        else:  # "multi": explicit per-chain key array
+            builder.set_engine_seed(jax.random.split(jax.random.PRNGKey(eseed), chains))
     builder.show_progress = False
     builder.store_kernel_states = tracer
     builder.set_epochs(_epoch_configs(schedule))
@@ -722,7 +739,10 @@ def _check_case(res, case):
     bad = compare_runs(la, Ck["leaves"])
     res.outcome("int-vs-key", "equal" if not bad else "differs")
     if bad:
-        viol("reproducibility", "int-seed-vs-PRNGKey-differs", f"seed={case['seed']} and PRNGKey({case['seed']}) give different results in {len(bad)} leaves, first {bad[:3]}", bad[:10])
+        if case.get("eseed") is None:
+            viol("reproducibility", "int-seed-vs-PRNGKey-differs", f"seed={case['seed']} and PRNGKey({case['seed']}) give different results in {len(bad)} leaves, first {bad[:3]}", bad[:10])
+        else:
+            viol("reproducibility", "set_engine_seed-int-vs-PRNGKey-differs", f"set_engine_seed({case['eseed']}) and set_engine_seed(PRNGKey({case['eseed']})) give different results in {len(bad)} leaves, first {bad[:3]}", bad[:10])
     if not all(_same(x, y) for x, y in zip(A["carries"], Ck["carries"])):
         viol("reproducibility", "carry-key-differs-int-vs-PRNGKey", "Engine._prng_key differs between the int-seed and the PRNGKey-seed run")
 
@@ -841,7 +861,7 @@ def _leaf_digests(leaves):
 
 
 def _jittered_names(case):
-    return [f"x{i}" for i in range(case["nk"])] if case["kind"] == "tracer" else ["a", "b"]
+    return ref.jittered_names(case)
 
 
 def run_xproc_unit(res, unit):
